@@ -10,10 +10,11 @@
 #include <cds/details/throw_exception.h>
 struct vx_obj { int x; };
 extern "C" {
-    int vxq_push(void* p); void* vxq_pop(void); size_t vxq_size(void); size_t vxq_capacity(void); int vxq_empty(void); void vxq_clear(void);
+    void vxq_construct(size_t n); int vxq_push(void* p); void* vxq_pop(void); size_t vxq_size(void); size_t vxq_capacity(void); int vxq_empty(void); void vxq_clear(void);
     void* vx_heap_new(void); void vx_heap_free(void* p); void* vx_block_alloc(size_t n); void vx_obj_constructed(void* p); void vx_obj_destroyed(void* p);
 }
 struct vx_queue {
+    void vx_construct( size_t n ) { vxq_construct( n ); }
     bool push( vx_obj& v ) { return vxq_push(&v) != 0; }
     vx_obj* pop() { return (vx_obj*) vxq_pop(); }
     size_t size() const { return vxq_size(); }
@@ -35,6 +36,7 @@ struct shell_vqp : shell_pool {
 #include <vqp_allocate.inc>
 #include <vqp_deallocate.inc>
 #include <vqp_preallocate_pool.inc>
+#include <vqp_ctor.inc>
 #include <vqp_from_pool.inc>
 };
 struct shell_lazy : shell_pool {
@@ -45,6 +47,7 @@ struct shell_bounded : shell_pool {
 #include <bounded_allocate.inc>
 #include <bounded_deallocate.inc>
 #include <bounded_preallocate_pool.inc>
+#include <bounded_ctor.inc>
 #include <bounded_from_pool.inc>
 };
 static shell_vqp g_vqp; static shell_lazy g_lazy; static shell_bounded g_bounded;
@@ -57,9 +60,9 @@ struct shell_pool_allocator {
 extern "C" {
 void w_set_block(void* first, size_t n) { g_vqp.m_pFirst = g_bounded.m_pFirst = (vx_obj*)first; g_vqp.m_pLast = g_bounded.m_pLast = (vx_obj*)first + n; }
 void* w_vqp_allocate(void) { return g_vqp.allocate(1); }      void w_vqp_deallocate(void* p) { g_vqp.deallocate((vx_obj*)p, 1); }
-void w_vqp_preallocate(void) { g_vqp.preallocate_pool(); }    void* w_vqp_first(void) { return g_vqp.m_pFirst; } void* w_vqp_last(void) { return g_vqp.m_pLast; }
+void w_vqp_construct(size_t n) { g_vqp.vx_ctor( n ); }    void* w_vqp_first(void) { return g_vqp.m_pFirst; } void* w_vqp_last(void) { return g_vqp.m_pLast; }
 void* w_lazy_allocate(void) { return g_lazy.allocate(1); }    void w_lazy_deallocate(void* p) { g_lazy.deallocate((vx_obj*)p, 1); }
 void* w_bounded_allocate(void) { return g_bounded.allocate(1); } void w_bounded_deallocate(void* p) { g_bounded.deallocate((vx_obj*)p, 1); }
-void w_bounded_preallocate(void) { g_bounded.preallocate_pool(); } void* w_bounded_first(void) { return g_bounded.m_pFirst; } void* w_bounded_last(void) { return g_bounded.m_pLast; }
+void w_bounded_construct(size_t n) { g_bounded.vx_ctor( n ); } void* w_bounded_first(void) { return g_bounded.m_pFirst; } void* w_bounded_last(void) { return g_bounded.m_pLast; }
 void* w_pa_allocate(void) { shell_pool_allocator a; return a.allocate(1); }  void w_pa_deallocate(void* p) { shell_pool_allocator a; a.deallocate((vx_obj*)p, 1); }
 }
